@@ -1,5 +1,6 @@
 """C12 — make_extended_trapezoid_area: exact area, end points, no shorter ramp pair."""
 import math
+import signal
 import sys
 from fractions import Fraction as Fr
 
@@ -54,6 +55,7 @@ ASSUMPTIONS = ['generated cases keep every ceil() argument of the ramp-time comp
                'range has a solution every longer one has (the assumption behind the binary search in the code)']
 
 FUEL_D, FUEL_B = 40, 200
+IMPL_TIMEOUT = 20          # seconds; a search that never terminates is reported as a failure, not waited for
 GUARD = Fr(1, 10 ** 9)
 
 
@@ -118,10 +120,10 @@ def gen_case(rng, tier, boundary=False):
             if k == 'limit-':
                 return -mg
             if k == 'tiny':
-                return Fr(rng.randint(-2000, 2000), 10)
+                return Fr(rng.randint(-300, 300)) if rng.random() < 0.7 else Fr(rng.randint(-3000, 3000), 10)
             if k == 'half':
                 return Fr(rng.choice([-1, 1]) * (MG // 2))
-            return Fr(round(rng.uniform(-1, 1) * float(mg) * 10), 10)
+            return Fr(round(rng.uniform(-1, 1) * float(mg)))
         gs = end()
         rel = rng.choice(['free', 'free', 'free', 'equal', 'opposite'])
         ge = gs if rel == 'equal' else -gs if rel == 'opposite' else end()
@@ -163,7 +165,7 @@ def gen_case(rng, tier, boundary=False):
         else:
             top = 150 if big else 25
             A = sgn * a1 * Fr(rng.choice([rng.uniform(1, 5), rng.uniform(2, 12), rng.uniform(5, top)]))
-        A = sig_round(A, 7)
+        A = sig_round(A, 6)
         case = {'kind': ('boundary-' if boundary else '') + kind, 'rel': rel, 'MG': str(MG), 'MS': str(MS), 'R': dstr(R),
                 'gs': dstr(gs), 'ge': dstr(ge), 'A': dstr(A)}
         return case
@@ -222,6 +224,11 @@ def impl_run(c, want_closure=True):
             elif event == 'return':
                 probes.append((int(frame.f_locals.get('duration', -1)), arg))
     res = {'probes': probes, 'closure': None}
+
+    def on_alarm(signum, frame):
+        raise TimeoutError('make_extended_trapezoid_area did not return within %d s' % IMPL_TIMEOUT)
+    old_handler = signal.signal(signal.SIGALRM, on_alarm)
+    signal.setitimer(signal.ITIMER_REAL, IMPL_TIMEOUT)
     sys.setprofile(prof if want_closure else None)
     try:
         g, tt, w = make_extended_trapezoid_area(area=float(A), channel='x', grad_start=float(gs), grad_end=float(ge),
@@ -240,6 +247,8 @@ def impl_run(c, want_closure=True):
         res['msg'] = repr(e)[:200]
     finally:
         sys.setprofile(None)
+        signal.setitimer(signal.ITIMER_REAL, 0)
+        signal.signal(signal.SIGALRM, old_handler)
     res['closure'] = box.get('fs')
     return res
 
@@ -388,8 +397,9 @@ def near_threshold(c, d, sol):
 
 def compare_find(ctx, c, closure, durations, oracle_ok):
     """_find_solution of the implementation (captured closure) against find_solution of the model"""
+    got = {}
     if not durations:
-        return
+        return got
     line = 'eta.find %s %d %s' % (args_tok(c), len(durations), ' '.join(ztok(d) for d in durations))
     t = Toks(ctx.model([line])[0])
     for d in durations:
@@ -401,6 +411,7 @@ def compare_find(ctx, c, closure, durations, oracle_ok):
         except Exception as e:  # noqa: BLE001
             ctx.mismatch('find', c, {'duration': d, 'impl_exception': repr(e)[:200]})
             continue
+        got[d] = s
         ctx.count('find.' + ('none' if s is None else 'some'))
         diff = None
         if (s is None) != (m is None):
@@ -420,6 +431,7 @@ def compare_find(ctx, c, closure, durations, oracle_ok):
                 ctx.count('benign.find.' + why)
             else:
                 ctx.mismatch('find', c, diff)
+    return got
 
 
 def compare_run(ctx, c, res, mres, oracle_ok, D):
@@ -505,12 +517,6 @@ def process(ctx, c, rng, n_find):
             ds = [p[0] for p in lin_probes]
             binary = any(b != a + 1 for a, b in zip(ds, ds[1:]))
             ctx.count('phase.' + ('binary' if binary else 'linear'))
-            dead = any(s is None for (d, s) in res['probes'] if d > Di) or \
-                any(res['probes'][i][1] is not None and res['probes'][j][1] is None
-                    for i in range(len(res['probes'])) for j in range(len(res['probes']))
-                    if res['probes'][j][0] > res['probes'][i][0])
-            if dead:
-                ctx.count('dead_zone_seen')
         if dom and ok and Di <= 14 and rng.random() < 0.3:
             ctx.count('info.shorter_three_segment_%s' % ('exists' if three_segment_shorter(c, Di) else 'none'))
     ctx.evaluated(('c12', c['MG'], c['MS'], c['R'], c['gs'], c['ge'], c['A']), nontrivial=nontrivial)
@@ -520,12 +526,16 @@ def process(ctx, c, rng, n_find):
     same = compare_run(ctx, c, res, mres, ok, D)
     if res.get('closure') is not None and n_find > 0:
         ds = sorted({d for d, _ in res['probes']})
-        if len(ds) > 6:
-            ds = sorted(rng.sample(ds, 6))
+        if len(ds) > 3:
+            ds = sorted(rng.sample(ds, 3))
         top = max([2] + [d for d, _ in res['probes']])
         extra = {rng.randint(1, max(3, min(2 * top, top + 60))) for _ in range(n_find)}
-        ds = sorted(set(ds) | extra)
-        compare_find(ctx, c, res['closure'], ds, ok)
+        if res['cls'] == 'OK':
+            extra |= {Di - 1, Di + 1, Di + 2, Di + rng.randint(3, 12)}
+        ds = sorted(d for d in set(ds) | extra if d >= 1)
+        got = compare_find(ctx, c, res['closure'], ds, ok)
+        if res['cls'] == 'OK' and any(s is None for d, s in got.items() if d > Di):
+            ctx.count('dead_zone_seen_behind_result')
     elif res.get('closure') is None:
         ctx.count('find.closure_unavailable')
     return res, ok
@@ -543,7 +553,7 @@ def run(ctx):
         if ctx.out_of_time():
             ctx.notes.append('time budget reached after %d cases' % i)
             break
-        res, ok = process(ctx, c, frng, n_find=3)
+        res, ok = process(ctx, c, frng, n_find=2)
         if i % 97 == 40 and res['cls'] == 'OK':
             ctx.sample({'case': c, 'tt': res['tt'], 'waveform': res['wave'], 'probed_durations': [d for d, _ in res['probes']][:30]})
     nb = len(ctx.benign)
